@@ -164,6 +164,11 @@ func runC02(c *Ctx) {
 			other := images[(idx+1)%len(images)]
 			if other.name == "library" {
 				check("transplant", rebuildWithBlobs(other.img, si.blobs), true)
+				// ... and onto an image that keeps its own, valid signature by another key
+				if len(other.blobs) > 0 {
+					check("transplant-behind-own-signature", rebuildWithBlobs(other.img, append(append([][]byte{}, other.blobs...), si.blobs...)), true)
+					check("transplant-before-own-signature", rebuildWithBlobs(other.img, append(append([][]byte{}, si.blobs...), other.blobs...)), false)
+				}
 			}
 		}
 		// rewrites inside the blob, re-embedded
@@ -186,6 +191,10 @@ func runC02(c *Ctx) {
 					if d := root.at(1, 0, 2, 1, 0, 1, 1); d != nil && d.tag == 0x04 && len(d.val) == 32 {
 						d.val = newDigest
 						check("digest-swap-forgery", rebuildWithBlobs(m, append([][]byte{root.encode()}, si.blobs[1:]...)), false)
+						// ... and with a messageDigest of the rewritten content among the attributes nothing signs
+						if r2 := root.clone(); sdOf(r2) != nil && addUnauthMessageDigest(sdOf(r2), true) {
+							check("digest-swap-forgery+unauthenticated-messagedigest", rebuildWithBlobs(m, append([][]byte{r2.encode()}, si.blobs[1:]...)), false)
+						}
 						// ... and with the fields no signature covers rewritten as well (digest algorithm of the signer entry)
 						if sd := sdOf(root); sd != nil {
 							for i, ch := range sd.children {
